@@ -221,10 +221,16 @@ PROPS["C01"] = dict(
          "count limit, logical byte limit, physical byte limit, HWM 1, mixed multipart with empty frames, header boundaries, up to 1 MiB). "
          "Payloads are self-describing (sender, seq, frame idx/count, length, checksum, keyed body); the oracle over the boundary log checks "
          "exactly-once, per-sender order and byte-exact integrity; loss = accepted id still missing after 6 s without progress while the monitor "
-         "showed no disconnect (disconnected scenarios are discarded and counted). distinct = (config, seed) with >= 5 accepted messages.",
+         "showed no disconnect (disconnected scenarios are discarded and counted). distinct = (config, seed) with >= 5 accepted messages. "
+         "(thorough) six Miri shards (one scheduler seed each) of four tiny inproc histories (PUSH->PULL, ROUTER->DEALER, REQ<->REP, "
+         "DEALER->ROUTER; 6 messages, HWM 1/8, 2-worker runtime): the whole socket stack under Miri's data-race detector, random preemption and "
+         "weak-memory emulation, same oracle (Stacked Borrows off: the third-party fibre queue trips it).",
     assumptions=["'accepted' means send() returned Ok; a failed/cancelled send stays open (may or may not arrive)",
                  "loss is bounded progress: 6 s without any delivery after the sender stopped"],
-    shards=lambda tier, seed: sharded("c01", _n(tier, 14, 16), _n(tier, 300, 1500)),
+    shards=lambda tier, seed: sharded("c01", _n(tier, 14, 16), _n(tier, 300, 1500))
+    + ([miri("c01", "c01-miri-%d" % i, ["--only", "miri", "--cases", 4, "--first", 4 * i, "--shard", "%d/6" % i],
+             miriflags="-Zmiri-disable-isolation -Zmiri-disable-stacked-borrows -Zmiri-seed=%d" % i, env={"VH_SLOW": "100"}) for i in range(6)]
+       if tier == "thorough" else []),
     max_parallel=14,
     min_evaluations={"quick": 100, "thorough": 1000},
 )
